@@ -325,6 +325,8 @@ def check(repo: Repo, run: Run) -> None:
                            f"{e.func.rsplit('.', 1)[-1]} mutates the mutable default argument `{root.a[0]}` of "
                            f"{e.func.split('.<locals>')[0].rsplit('.', 1)[-1]}: one object shared by every call and every decoder "
                            f"built from it", line=e.lineno)
+                elif root.op == "global" and root.a[0] == f"{mod.name}.handlers" and fname in registrars(mod):
+                    continue        # a registration decorator fills the family's registry while the module is imported
                 elif root.op == "global" and root.a[0].startswith("pykdebugparser.") and k not in seen \
                         and e.kind in ("sub-store", "mut-call", "del-sub", "attr-store"):
                     seen.add(k)
@@ -341,6 +343,18 @@ def handle_canary(parser, events):
     parser.cache[events[0].eventid] = 1
     return None
 '''
+
+
+def registrars(mod) -> set:
+    """Names used as decorators (or decorator factories) of module-level functions of the module."""
+    import ast
+    out = set()
+    for f in mod.functions.values():
+        for d in f.decorator_list:
+            n = d.func if isinstance(d, ast.Call) else d
+            if isinstance(n, ast.Name):
+                out.add(n.id)
+    return out
 
 
 def _canary(run: Run, interp) -> None:
